@@ -43,9 +43,10 @@ LEVEL_NOTE = ("walk_eq_spec is proved for every message satisfying its premises 
               "counts ranges over the pointer words the decoder visits only, and C03_walk_eq_spec_applies instantiates the theorem on a "
               "three-segment message with far and double-far pointers, a composite list and data words that look like hostile pointers. "
               "The walker reads every list at its native kind: the upgrade reads and out-of-section defaults are covered by the "
-              "single-step accessor theorems and by the runs, not by walk_eq_spec. All theorems are about the lenient decoder; there is "
-              "no theorem 'strict_valid_message = VOk implies walker = strict decode' (only strict resolution implies lenient resolution "
-              "of the same target, C05_strict_implies_lenient). Known finding: composite tag counts >= 2^29 (zero-sized elements) are "
+              "single-step accessor theorems and by the runs, not by walk_eq_spec. All C03 theorems are about the lenient decoder; the bridge to the strict "
+              "one is in Properties_C05_specvalid.v: on a strictly valid message (strict_valid_message = VOk) both decoders agree "
+              "(C05_strict_valid_decoders_agree) and the walker returns the strict tree under walk_eq_spec's premises "
+              "(C05_strict_valid_walk); absence of TErr nodes in that tree is not stated as a theorem. Known finding: composite tag counts >= 2^29 (zero-sized elements) are "
               "rejected with an error. Fixed during this work: a double-far pointer to a zero-sized struct at word 0 of a segment was "
               "read as null.")
 TECHNIQUE = "Coq proof over an executable model + extracted-model/implementation differential run"
